@@ -183,11 +183,18 @@ Section C16Root.
   Theorem C16_init_behind : forall a H sts last last_root, Good a H sts -> H < last -> init a last last_root = IBehind.
   Proof. exact (init_behind hash enc TR R root_eqb tree_update tree_root tree_empty U empty_root empty_root_spec). Qed.
 
+  (* Finalize(fh) with fh <= application height: the database stays good; the chain of undoable levels is cut at
+     max(F, fh-1) — exactly the levels whose diffs survive (a wrong prune bound would break the last Revert/Init step) *)
+  Theorem C16_finalize_keeps_good : forall a H sts fh F, Good a H sts -> length sts = S (N.to_nat (H - F)) -> F <= H -> fh <= H ->
+    Good (finalize a fh) H (firstn (S (N.to_nat (H - N.max F (fh - 1)))) sts) /\
+    length (firstn (S (N.to_nat (H - N.max F (fh - 1)))) sts) = S (N.to_nat (H - N.max F (fh - 1))).
+  Proof. intros a H sts fh F G L HF Hfh. eapply finalize_good; eauto. Qed.
+
   (* for ALL sequences of blocks (any transactions), reverts and restarts from the empty database: the database is Good
      — consistent with a history of tree batches (so its root is the SMT root of its state), tree-state record at the
      application height, and every earlier state of the chain still reachable by Revert / Init *)
-  Theorem C16_every_reachable_db_is_good : forall a H, reach a H ->
-    exists sts, Good a H sts /\ length sts = S (N.to_nat H) /\ diff_at (a_diffs a) 0 = None.
+  Theorem C16_every_reachable_db_is_good : forall a H F, reach a H F ->
+    exists sts, Good a H sts /\ length sts = S (N.to_nat (H - F)) /\ F <= H /\ diff_at (a_diffs a) F = None.
   Proof. exact (reach_good hash enc TR R root_eqb tree_update tree_root tree_empty U hash_len hash_wfb hash_inj_U enc_len enc_inj root_eqb_spec H_C10 empty_root empty_root_spec). Qed.
 End C16Root.
 
@@ -203,14 +210,14 @@ Theorem C16_composed_with_C10 :
     (forall a, length (enc a) = (8 * length a)%nat) ->
     (forall a b, wfb a -> wfb b -> length a = length b -> enc a = enc b -> a = b) ->
     (forall a b, heqb a b = true <-> a = b) ->
-    forall a H,
-      reach hash enc (@T bytes) Hsh heqb (batch_update tkbits) (Tree.hash hempty hleaf hbranch) E U hempty a H ->
+    forall a H F,
+      reach hash enc (@T bytes) Hsh heqb (batch_update tkbits) (Tree.hash hempty hleaf hbranch) E U hempty a H F ->
       exists sts, Good hash enc (@T bytes) Hsh (batch_update tkbits) (Tree.hash hempty hleaf hbranch) E U hempty a H sts /\
-                  length sts = S (N.to_nat H) /\ diff_at (a_diffs a) 0 = None.
+                  length sts = S (N.to_nat (H - F)) /\ F <= H /\ diff_at (a_diffs a) F = None.
 Proof.
-  intros hash enc U Hsh hempty hleaf hbranch heqb H1 H2 H3 H4 H5 Hq a H Hr.
+  intros hash enc U Hsh hempty hleaf hbranch heqb H1 H2 H3 H4 H5 Hq a H F Hr.
   exact (reach_good hash enc (@T bytes) Hsh heqb (batch_update tkbits) (Tree.hash hempty hleaf hbranch) E U H1 H2 H3 H4 H5 Hq
-           (@root_is_function_of_map bytes Hsh hempty hleaf hbranch tkbits) hempty eq_refl a H Hr).
+           (@root_is_function_of_map bytes Hsh hempty hleaf hbranch tkbits) hempty eq_refl a H F Hr).
 Qed.
 
 (* CONSISTENCY of the hypotheses, checked by Coq: a concrete instance — enc8 (the 8-bit big-endian expansion, both
@@ -222,10 +229,10 @@ Definition fh_eq_dec : forall a b : fh, {a = b} + {a <> b}.
 Proof. decide equality; try apply (list_eq_dec N.eq_dec); apply (list_eq_dec Bool.bool_dec). Defined.
 Definition fh_eqb (a b : fh) : bool := if fh_eq_dec a b then true else false.
 
-Theorem C16_hypotheses_consistent : forall a H,
-  reach hash_toy enc8 (@T bytes) fh fh_eqb (batch_update tkbits) (Tree.hash FE FL FB) E U_toy FE a H ->
+Theorem C16_hypotheses_consistent : forall a H F,
+  reach hash_toy enc8 (@T bytes) fh fh_eqb (batch_update tkbits) (Tree.hash FE FL FB) E U_toy FE a H F ->
   exists sts, Good hash_toy enc8 (@T bytes) fh (batch_update tkbits) (Tree.hash FE FL FB) E U_toy FE a H sts /\
-              length sts = S (N.to_nat H) /\ diff_at (a_diffs a) 0 = None.
+              length sts = S (N.to_nat (H - F)) /\ F <= H /\ diff_at (a_diffs a) F = None.
 Proof.
   apply (C16_composed_with_C10 hash_toy enc8 U_toy fh FE FL FB fh_eqb
            hash_toy_len hash_toy_wfb hash_toy_inj_U enc8_len enc8_inj).
@@ -238,7 +245,7 @@ Example C16_reach_nonvacuous :
   let k := [0; 0; 0; 0; 1; 0; 0] ++ repeat 7 32 in
   let t := {| tx_id := 1; tx_module := 1; tx_module_ok := true; tx_before := ([], false);
               tx_command := Some ([ASet k [5]; AGet k], false); tx_after := ([], false) |} in
-  exists a r, reach hash_toy enc8 (@T bytes) fh fh_eqb (batch_update tkbits) (Tree.hash FE FL FB) E U_toy FE a 1 /\
+  exists a r, reach hash_toy enc8 (@T bytes) fh fh_eqb (batch_update tkbits) (Tree.hash FE FL FB) E U_toy FE a 1 0 /\
               lookup (a_state a) k = Some [5] /\ a_tree_state a = Some (1, r) /\ r <> FE.
 Proof.
   intros k t.
@@ -247,7 +254,7 @@ Proof.
   destruct (commit hash_toy enc8 fh_eqb (batch_update tkbits) (Tree.hash FE FL FB) f c 1 (Tree.hash FE FL FB (a_tree f)) None false) as [a r| | |] eqn:Ec;
     try (vm_compute in Ex; inversion Ex; subst; vm_compute in Ec; discriminate).
   exists a, r. split.
-  - apply (rc_block hash_toy enc8 (@T bytes) fh fh_eqb (batch_update tkbits) (Tree.hash FE FL FB) E U_toy FE f 0 [t] c v None a r).
+  - apply (rc_block hash_toy enc8 (@T bytes) fh fh_eqb (batch_update tkbits) (Tree.hash FE FL FB) E U_toy FE f 0 0 [t] c v None a r).
     + apply rc_fresh.
     + repeat constructor; simpl; auto; try (exists ([0; 0; 0; 1; 0; 0] ++ repeat 7 32); split; [reflexivity | simpl; lia]);
         try (unfold U_toy; split; [repeat constructor; lia | reflexivity]); repeat constructor; lia.
